@@ -105,7 +105,7 @@ func c11Cells(tier string) []Cell {
 	// that are long expired at the instant it removes them.
 	for _, b := range backendKinds {
 		for _, ttl := range []string{"5m", "unlimited"} {
-			for prog := 0; prog < 3; prog++ {
+			for prog := 0; prog < 4; prog++ {
 				cells = append(cells, Cell{ID: c11Cell{Conc: true, Backend: b, TTL: ttl, DEA: "1m", First: prog}.id()})
 			}
 		}
@@ -125,7 +125,8 @@ func c11Cells(tier string) []Cell {
 }
 
 // c11Conc: k0 is preloaded long-expired, k1 never-expiring / fresh. One thread runs a cleanup cycle, another
-// writes (program 0: fresh Write(k0); 1: Write(k0) then Write(k2); 2: two cleanup threads + Write(k0)).
+// writes (program 0: fresh Write(k0); 1: Write(k0) then Write(k2); 2: two cleanup threads + Write(k0); 3: DeleteAll next
+// to a write of a long-expired entry, then a cycle).
 // After all threads finished, k0 must hold the freshly written value and k1 must still be there.
 func c11Conc(cc c11Cell, env *Env) CellResult {
 	res := CellResult{Exhaustive: true, Outcomes: map[string]int{}}
@@ -142,6 +143,17 @@ func c11Conc(cc c11Cell, env *Env) CellResult {
 		ctx := context.Background()
 		_ = b.Write(cache.WithTTL(ctx, -48*time.Hour, false), keys[0], 0)
 		_ = b.Write(ctx, keys[1], 1)
+
+		if cc.First == 3 {
+			// program 3: DeleteAll next to a write that stores an already long-expired entry; the cycle that follows
+			// must not leave that entry behind (whether DeleteAll took it or not)
+			vsched.SpawnThread("deleteall", func() { b.DeleteAll(ctx) })
+			vsched.SpawnThread("writer", func() { _ = b.Write(cache.WithTTL(ctx, -2*time.Minute, false), keys[2], 300) })
+			vsched.Join()
+			b.Cleanup()
+
+			return
+		}
 
 		vsched.SpawnThread("cleanup", func() { b.Cleanup() })
 
@@ -174,6 +186,14 @@ func c11Conc(cc c11Cell, env *Env) CellResult {
 			have[string(k)] = v
 			return nil
 		})
+
+		if cc.First == 3 {
+			if _, ok := have[string(keys[2])]; ok {
+				vs = append(vs, Violation{Signature: sig + " long-expired-entry-survives", Detail: "an entry stored as long expired while DeleteAll was running is still there after the next cleanup cycle"})
+			}
+
+			return vs
+		}
 
 		if v, ok := have[string(keys[0])]; !ok || v != 100 {
 			vs = append(vs, Violation{Signature: sig + " fresh-entry-removed", Detail: fmt.Sprintf("after Write(k0) || Cleanup the freshly written entry is %v (present=%v); the cycle may only remove entries expired longer than DeleteExpiredAfter", v, ok)})
